@@ -377,6 +377,13 @@ fn run_case<'a>(ctx: &'a Ctx, case: u64, acc: &'a mut Acc) -> CaseFut<'a> {
         // deletion records
         pool.push(mk("deletion-of-own-row", true, Item::ND(NodeDeletionEntry::build(room.id, &petw, t2, &w.signing))));
         pool.push(mk("deletion-of-foreign-row-with-own-right-only", false, Item::ND(NodeDeletionEntry::build(room.id, &px, t2, &w.signing))));
+        {
+            // the record names a version date that is not the stored one (one millisecond later): the row it deletes is
+            // still another author's row
+            let mut shifted = px.clone();
+            shifted.mdate += 1;
+            pool.push(mk("deletion-of-foreign-row-with-own-right-only-and-a-shifted-version-date", false, Item::ND(NodeDeletionEntry::build(room.id, &shifted, t2, &w.signing))));
+        }
         pool.push(mk("deletion-by-outsider", false, Item::ND(NodeDeletionEntry::build(room.id, &pw, t2, &o.signing))));
         pool.push(mk("deletion-by-member-disabled-at-its-date", false, Item::ND(NodeDeletionEntry::build(room.id, &pw, t2, &d.signing))));
 
